@@ -110,6 +110,9 @@ struct E1 // the exception type try_call is asked to catch
 {
   int d;
 };
+struct E1d : E1 // derived from the caught type: caught too (catch by reference to the base)
+{
+};
 struct E2 // any other exception type
 {
 };
@@ -1042,6 +1045,68 @@ std::string op2(std::vector<std::string> const &t)
     throw bad_op{};
   }
 
+
+  // ---------------- constructors (object_impl.hpp): an lvalue argument is copied, not moved from
+  if (o == "o.ctor" && n == 3)
+    return cat1(t[1], tok<A>(t[2]), [&](auto &&x) -> oA { return oA{FWD(x)}; });
+  if (o == "e.ctor" && n == 4)
+  {
+    if (t[2] == "S")
+      return cat1(t[1], tok<A>(t[3]), [&](auto &&x) -> eA { return eA{FWD(x)}; });
+    if (t[2] == "F")
+      return cat1(t[1], tok<E>(t[3]), [&](auto &&x) -> eA { return eA{FWD(x)}; });
+    throw bad_op{};
+  }
+  if (o == "v.ctor" && n == 3)
+  {
+    var3 const v{tok<var3>(t[2])};
+    switch (v.type_index())
+    {
+    case 0: return cat1(t[1], std::get<0>(v.impl()), [&](auto &&x) -> var3 { return var3{FWD(x)}; });
+    case 1: return cat1(t[1], std::get<1>(v.impl()), [&](auto &&x) -> var3 { return var3{FWD(x)}; });
+    case 2: return cat1(t[1], std::get<2>(v.impl()), [&](auto &&x) -> var3 { return var3{FWD(x)}; });
+    default: throw bad_op{};
+    }
+  }
+  // to_exception on an lvalue returns a reference to the value inside the source
+  if (o == "o.to_exc_ref" && n == 3)
+  {
+    auto const go = [&](auto &x) -> std::string
+    {
+      auto &r{fo::to_exception(x, []
+                               {
+                                 lg("m", {});
+                                 return E2{};
+                               })};
+      static_assert(std::is_lvalue_reference_v<decltype(fo::to_exception(x, [] { return E2{}; }))>);
+      return std::string{&r == &x.get_unsafe() ? "in" : "other"} + ":" + show(r);
+    };
+    oA x{tok<oA>(t[2])};
+    if (t[1] == "L")
+      return go(x);
+    if (t[1] == "C")
+      return go(std::as_const(x));
+    throw bad_op{};
+  }
+  if (o == "e.to_exc_ref" && n == 3)
+  {
+    auto const go = [&](auto &x) -> std::string
+    {
+      auto &r{fe::to_exception(x, [](E const &f)
+                               {
+                                 lg("m", {f.v()});
+                                 return E1{f.v()};
+                               })};
+      return std::string{&r == &x.get_success_unsafe() ? "in" : "other"} + ":" + show(r);
+    };
+    eA x{tok<eA>(t[2])};
+    if (t[1] == "L")
+      return go(x);
+    if (t[1] == "C")
+      return go(std::as_const(x));
+    throw bad_op{};
+  }
+
   // ---------------- monad
   if (o == "m.chain2.o" && n == 5)
   {
@@ -1339,7 +1404,7 @@ std::string op(std::vector<std::string> const &t)
   if (o == "e.try" && n == 3)
   {
     std::string const &r = t[1];
-    if (!(r == "Y" || (r.size() == 2 && (r[0] == 'R' || r[0] == 'X') && r[1] >= '0' && r[1] <= '2')))
+    if (!(r == "Y" || (r.size() == 2 && (r[0] == 'R' || r[0] == 'X' || r[0] == 'Z') && r[1] >= '0' && r[1] <= '2')))
       throw bad_op{};
     auto const f = tbl<E>(3, t[2]);
     return show(fe::try_call<E1>(
@@ -1350,6 +1415,8 @@ std::string op(std::vector<std::string> const &t)
             throw E2{};
           if (r[0] == 'X')
             throw E1{r[1] - '0'};
+          if (r[0] == 'Z')
+            throw E1d{{r[1] - '0'}};
           return A{r[1] - '0'};
         },
         [&f](E1 const &e) -> E
@@ -1693,6 +1760,9 @@ std::string handle(std::vector<std::string> const &t)
         ++count;
       }
     if (count != 1)
+      return "bad-op";
+    rest[star] = "000000000";
+    if (handle1(rest) == "bad-op")
       return "bad-op";
     std::uint64_t h = vh::fnv_init;
     for (unsigned i = 0; i < 19683U; ++i)
